@@ -52,6 +52,11 @@ FIXED += [
     ("C10", "8e50c74", "`modified > '99:99:99'`, 'apr 1 25:61', '10.70', day('12345.6'): an out-of-range time made chrono-english panic (found by the eval_total fuzz target)", ["english-date-time-out-of-range", "english-date-decimal"]),
     ("C08", "3fbaa22", "`group by ext order by ext` with extensions that look like numbers next to ones that do not (1, 2, 10, 1x, 9a): the per-pair numeric/text comparator is not a total order - rows came out unsorted, and with ~40 such groups the sort panicked (status 101)", ["mixed-numeric-looking-keys", "mixed-numeric-looking-keys-many"]),
     ("C02", "956b72e", "an integer column compared with a number that has a fractional part and no unit (`size < 0.5`, `length(name) > 11.6`, `size = 4096.0`): the literal was read as 0 (noticed by a round-3 seeding agent as a side remark; C02 had no decimal literals without unit)", ["decimal-literal"]),
+    ("C05", "b34e293", "numeric ORDER BY keys went through the unsigned size parser: negative and fractional keys (`size - 100`, `-size`, `length(name) - 6`) all counted as 0 and came out unsorted (audit agent + extended key pool)", []),
+    ("C05", "9b74d0e", "the comparison of an ORDER BY key was chosen from its left-most operand: `2 * size`, `1000000 - size` compared as text; `hex(size)`, `concat(size, name)` as numbers (no sorting at all); `substr(modified, 1, 4)`, `dow(modified)` as dates that never parse", []),
+    ("C06", "c4b7fa4", "LIMIT was ignored for GROUP BY queries (`select ext, count(*) ... group by ext order by 2 desc limit 3` printed every group)", []),
+    ("C08", "62f6e8f", "`order by avg(size)` over group rows sorted as text (10.5 < 100 < 9.5): a column counted as numeric only when all values were integers", []),
+    ("C08", "419526c", "a GROUP BY query ordered by a key or aggregate it does not display (`select ext, count(*) ... order by sum(size)`) was silently sorted by its first column", []),
     ("C10", "9b6a0a7", "day('2020-0\u0661-01'): the date pattern matched non-ASCII digits and the integer parse of the capture was unwrapped (found by the eval_total fuzz target after 2e7 executions)", ["date-non-ascii-digit"]),
     ("C10", "69a0b27", "`name from './[a' depth 1 rx`: a malformed pattern in a regexp search root panicked (unwrap of Regex::new)", ["regexp-root-malformed"]),
 ]
